@@ -224,6 +224,9 @@ func (act *activation) load(a *alt, addr term.ID, ins ssa.Instruction) term.ID {
 	tm := e.T.Get(addr)
 	switch {
 	case strings.HasPrefix(tm.Op, "gaddr:"):
+		if v, ok := e.globalConst(tm.Op[6:]); ok {
+			return v
+		}
 		return e.T.Mk("gv:" + tm.Op[6:])
 	case strings.HasPrefix(tm.Op, "faddr:"):
 		return e.field(act.loadPtr(a, tm.Args[0]), tm.Op[6:])
@@ -250,6 +253,9 @@ func (act *activation) store(a *alt, addr, v term.ID, ins ssa.Instruction) {
 		cv := a.cells[c]
 		if cv.val == 0 {
 			cv.val = e.T.Mk(fmt.Sprintf("top#c%d", c))
+		}
+		if len(path) > 0 && e.T.Op(cv.val) == "top#bigarray" {
+			return
 		}
 		cv.val = e.writePath(cv.val, path, v)
 		a.cells[c] = cv
@@ -605,6 +611,9 @@ func (act *activation) exec(a *alt, ins ssa.Instruction) []*alt {
 					args[i] = T.Mk("zero:" + typeShort(u.Elem()))
 				}
 				z = T.Mk("arr", args...)
+			} else if u.Len() > 64 {
+				// large tables (generated descriptors): not tracked
+				z = T.Mk("top#bigarray")
 			} else {
 				z = T.Mk("zero:" + typeShort(et))
 			}
